@@ -272,8 +272,11 @@ class Session:
                 _gate1(q, g)
             if body["c"] == "meas":
                 q.measure()
-            else:
+            elif body["c"] == "free":
                 q.free()
+            elif body["c"] == "inplace":
+                q.measure(inplace=True)
+            # "none": gates only, the pair stays alive
         return f
 
     def do(self, idx, op):
@@ -329,6 +332,11 @@ class Session:
                 (sock.recv_keep if op["recv"] else sock.create_keep)(
                     number=_num(op["n"], ty), sequential=_flag(True, ty), post_routine=lambda c, q, pair: f(q))
                 conn.goodness_plan.append(FAST)
+            elif k == "postk":
+                f = self._body_fn(op["body"])
+                (sock.recv_keep if op["recv"] else sock.create_keep)(
+                    number=_num(op["n"], ty), post_routine=lambda c, q, pair: f(q))
+                conn.goodness_plan.append(FAST)
             elif k in ("ctx", "ctx_open"):
                 f = self._body_fn(op["body"])
                 cm = (sock.recv_context if op["recv"] else sock.create_context)(
@@ -369,7 +377,7 @@ class Session:
         except Exception as e:  # noqa: BLE001
             if k in ("flush", "close"):
                 r = classify_fault(e)
-            elif isinstance(e, ValueError) and k in ("keep", "seq", "ctx", "ctx_open", "keepr", "seqr"):
+            elif isinstance(e, ValueError) and k in ("keep", "seq", "postk", "ctx", "ctx_open", "keepr", "seqr"):
                 r = "valueerror"
             else:
                 r = "error:" + type(e).__name__ + ":" + str(e)[:80]
@@ -471,7 +479,7 @@ def created(op):
     k = op["k"]
     if k == "new":
         return 1
-    if k in ("keep", "seq", "ctx", "keepr", "seqr"):
+    if k in ("keep", "seq", "postk", "ctx", "keepr", "seqr"):
         return op["n"]
     return 0
 
@@ -520,14 +528,21 @@ def analyse(cfg, ops):
         elif k == "seqr":
             peak = max(peak, cnt() + 1)
             alive.extend([False] * op["n"])
-        elif k in ("seq", "ctx"):
-            if k == "ctx" and not op["sequential"] and op["n"] > cfg["maxq"]:
+        elif k in ("seq", "ctx", "postk"):
+            if k in ("ctx", "postk") and not op.get("sequential", False) and op["n"] > cfg["maxq"]:
                 continue
             # the pairs are consumed inside the loop; sequential: one at a time
             single = cfg["nv"] or cfg["transp"] or cfg["maxq"] == 1
-            transient = 1 if (k == "seq" or op["sequential"] or single) else op["n"]
+            one_id = k == "seq" or op.get("sequential", False) or single
+            transient = 1 if one_id else op["n"]
             peak = max(peak, cnt() + transient)
-            alive.extend([False] * op["n"])  # placeholders the program never sees as live
+            if op["body"]["c"] in ("meas", "free"):
+                alive.extend([False] * op["n"])  # consumed inside the loop
+            else:
+                # the pairs stay alive; all pairs in ONE id is only possible for a single pair
+                if one_id and op["n"] > 1:
+                    wf = False
+                alive.extend([True] * op["n"])
         elif k == "close":
             alive = [False] * len(alive)
         peak = max(peak, cnt())
@@ -591,7 +606,7 @@ def random_ops(rng, cfg, length, loops=True, over_budget=False):
         if room >= 1:
             choices += ["new"] * 4 + ["keep"] * 2 + ["keepr"]
             if loops:
-                choices += ["seq", "ctx", "seqr"]
+                choices += ["seq", "ctx", "seqr", "postk", "ctx"]
         if lv:
             choices += ["gate"] * 2 + ["measd"] * 3 + ["measi", "free", "free"]
         if len(lv) >= 2:
@@ -639,21 +654,34 @@ def random_ops(rng, cfg, length, loops=True, over_budget=False):
             if rng.random() < 0.35:
                 ops[-1]["ty"] = rng.choice(["int", "np"])
             alive.extend([False] * n)
+        elif k == "postk":
+            single = cfg["nv"] or cfg["transp"] or cfg["maxq"] == 1
+            keepit = rng.random() < 0.5
+            n = 1 if (single and keepit) else rng.randint(1, max(1, min(room, 3)))
+            ops.append({"k": "postk", "recv": rng.random() < 0.5, "n": n,
+                        "body": {"g": rng.randrange(3), "c": rng.choice(["inplace", "none"] if keepit else ["meas", "free"])}})
+            alive.extend([keepit] * n)
         elif k == "seq":
-            n = rng.randint(1, 3)
+            keepit = rng.random() < 0.3
+            n = 1 if keepit else rng.randint(1, 3)
             ops.append({"k": "seq", "recv": rng.random() < 0.5, "n": n,
-                        "body": {"g": rng.randrange(3), "c": rng.choice(["meas", "free"])}})
+                        "body": {"g": rng.randrange(3), "c": rng.choice(["inplace", "none"] if keepit else ["meas", "free"])}})
             if rng.random() < 0.35:
                 ops[-1]["ty"] = rng.choice(["int", "np"])
-            alive.extend([False] * n)
+            alive.extend([keepit] * n)
         elif k == "ctx":
+            single = cfg["nv"] or cfg["transp"] or cfg["maxq"] == 1
             sq = rng.random() < 0.5
-            n = rng.randint(1, 3 if sq else max(1, min(room, 3)))
+            keepit = rng.random() < 0.35
+            if keepit and (sq or single):
+                n = 1
+            else:
+                n = rng.randint(1, 3 if sq else max(1, min(room, 3)))
             ops.append({"k": "ctx", "recv": rng.random() < 0.5, "n": n, "sequential": sq,
-                        "body": {"g": rng.randrange(3), "c": rng.choice(["meas", "free"])}})
+                        "body": {"g": rng.randrange(3), "c": rng.choice(["inplace", "none"] if keepit else ["meas", "free"])}})
             if rng.random() < 0.35:
                 ops[-1]["ty"] = rng.choice(["int", "np"])
-            alive.extend([False] * n)
+            alive.extend([keepit] * n)
         elif k == "flush":
             ops.append({"k": "flush"})
         elif k == "bad" and alive:
